@@ -28,6 +28,7 @@ def forced_classes(rng, n):
     joins with the join identity and a predicate."""
     out = [(p, False, "fixed_window") for p in sp.fixed_window_cases()]
     out += [(p, False, "sorted_then") for p in sp.sorted_then_sequences(False)]
+    out += [(p, False, "op_sequences") for p in sp.op_sequences(False)]
     # join predicates that fold to a constant, alone and inside compounds, over operands with and without shared columns
     a, b, c = K(1), K(2), N(1)
     atom = ("cmp", "lt", ("ref", a), ("lit", 2))
@@ -114,6 +115,14 @@ def make_cases(rng, tier):
             continue
         t = enc.cresult(res[0], enc.ctree(res[1]))
         mode = 0 if ordered else 1
+        if kind == "op_sequences":
+            # the enumerated sequences include windows over rows in no determined order: judged only where the rows
+            # are determined at least as a multiset (harness/ordering.py)
+            import ordering
+            st = ordering.state(res[1])
+            if st > ordering.BAG:
+                continue
+            mode = st
         cases.append({"json": {"program": jsonable(p), "rows": jsonable(a), "rows_reversed_scan": jsonable(b), "ordered": ordered},
                       "coq": f"SQCase {mp.cprog(p)} {mp.cenv(p)} {t} {enc.crows(a)} {enc.crows(b)} {mode}%N",
                       "nontrivial": json.dumps(jsonable(res[1])).count('"select"') >= 2 or '"join"' in json.dumps(jsonable(res[1])),
